@@ -215,7 +215,12 @@ def o_c04(ctx, desc, obs, model, kw):
                         want = iis * abs(vs)
                         if r["iin"] != iis or not solved.close(r["pwr"], want) or not solved.close(r["loss"], want) \
                                 or not solved.close(r["vin"], vs):
-                            ctx.oracle(desc, "sleep_current", k, {}, {"phase": ph, "row": r["name"], "iis": iis, "Iin": r["iin"],
+                            # numpy's allclose has a fixed absolute tolerance of 1e-8: when EVERY current of the phase is below it the
+                            # exit test passes on the first sweep and the initial guess (0 A for a sleeping stage) is returned (F38)
+                            lim = 1e-8 * len(desc["comps"])
+                            trig = {"below_numpy_atol": bool(r["iin"] == 0.0 and iis < lim and solved.close(r["vin"], vs) and
+                                                             all(abs(x["iin"]) < lim and abs(x["iout"]) < lim for x in p["rows"]))}
+                            ctx.oracle(desc, "sleep_current", k, trig, {"phase": ph, "row": r["name"], "iis": iis, "Iin": r["iin"],
                                        "Power": r["pwr"], "Loss": r["loss"], "Vin": r["vin"], "supply": f, "supply_vout": vs})
                 if k == "source" and (r["iin"] != 0.0 or r["pwr"] != 0.0 or r["loss"] != 0.0):
                     ctx.oracle(desc, "dead_source_zero", k, {}, {"phase": ph, "row": r["name"], "Iin": r["iin"], "Power": r["pwr"]})
@@ -408,7 +413,11 @@ def observe_rails(df):
         d = {RAILCOLS[c]: r[c] for c in df.columns if c in RAILCOLS}
         d.setdefault("phase", "")
         for k in ("volt", "curr", "pwr", "loss", "eff"):
-            d[k] = float(d[k])
+            try:
+                d[k] = float(d[k])
+            except (TypeError, ValueError):
+                d.setdefault("_not_numeric", {})[k] = repr(d[k])      # a computed cell that is not a number: reported by the caller
+                d[k] = float("nan")
         out.append(d)
     return out
 
